@@ -4,16 +4,20 @@ prove      coq/props/Properties_C09.v over the complete hand model coq/model/Rec
 correspond HM+X  RectClipLines(rect, path) == extracted model, exactly, on every generated case
                  + every leaf function of clipper.rectclip.cpp against coq/model/RectLeaf.v
            SPEC+O the property itself on the implementation's output (coq/proofs/RectSpec.v, exact arithmetic)
+           MULTI  calls with several paths (incl. empty / one-point / two-point paths; one object executed twice) ==
+                  concatenation of the single-path results (C09_paths_stateless) == extracted rect_clip_lines_paths
 The helpers here (tool building, leaf tie, robust runner, shrinking) are shared with checks/C08.py."""
 import itertools, json, os
 import vf
 
 META = dict(
     text='RectClipLines returns the parts of each polyline inside the rectangle: on the input (1.5), inside the '
-         'rectangle (1), in input order and direction, total length exact within 2 units per crossing',
+         'rectangle (1), in input order and direction, total length exact within 2 units per crossing; a call on several '
+         'polylines returns the concatenation of what each gives alone (nothing is carried from one path to the next)',
     note='complete Coq model of RectClipLines64 (Execute/ExecuteInternal/GetPath, Add, GetNextLocation, GetIntersection, '
          'GetSegmentIntersection with binary64 cross products) tied by exact equality on all generated cases; structural '
-         'theorems (provenance/containment, order, identity, safety) for all inputs; length and 1.5-unit clauses validated '
+         'theorems (provenance/containment, order, identity, safety, statelessness across the paths of a call) for all inputs; calls with '
+         '2..4 paths incl. empty/one-point/two-point ones and a reused RectClipLines64 object compared with the single-path results; length and 1.5-unit clauses validated '
          'against an exact Liang-Barsky specification extracted from Coq',
     technique='Coq proof over a faithful executable model + exact model/implementation correspondence + Coq-extracted specification oracle',
     category='proof')
@@ -211,8 +215,8 @@ def special(rng, lo, hi, mag):
     return clampc(v)
 
 
-def gen_polyline(rng, style, mag):
-    r = rand_rect(rng, mag)
+def gen_polyline(rng, style, mag, rect=None):
+    r = rect if rect is not None else rand_rect(rng, mag)
     l, t, rr, b = r
     n = rng.choice([2, 2, 3, 3, 4, 5, 6, 8, 12]) if not rng.chance(1, 40) else rng.range(13, 60)
     P = []
@@ -493,6 +497,149 @@ def record(ctx, tools, case, d):
                                                original=dict(rect=case['rect'], path=case['path'])))
 
 
+# ----------------------------------------------------------------------------- several polylines in one call
+def gen_multi(rng, mag):
+    """one rectangle, 2..4 paths: ordinary polylines of the nine styles mixed with empty, one-point (inside, on the boundary,
+    outside) and two-point paths, in every order"""
+    r = rand_rect(rng, mag)
+    l, t, rr, b = r
+    k = rng.range(2, 4)
+    ps = []
+    for _ in range(k):
+        kind = rng.below(8)
+        if kind == 0:
+            ps.append([])
+        elif kind in (1, 2):
+            where = rng.below(4)
+            if where == 0:
+                ps.append([[rng.range(l, rr), rng.range(t, b)]])                       # inside or on the boundary
+            elif where == 1:
+                ps.append([list(rng.choice([(l, t), (rr, b), (l, rng.range(t, b)), (rng.range(l, rr), b)]))])
+            elif where == 2:
+                ps.append([[(l + rr) // 2, (t + b) // 2]])
+            else:
+                ps.append([[special(rng, l, rr, mag), special(rng, t, b, mag)]])
+        elif kind == 3:
+            ps.append([[special(rng, l, rr, mag), special(rng, t, b, mag)] for _ in range(2)])
+        else:
+            ps.append(gen_polyline(rng, rng.choice(STYLES), mag, rect=r)['path'])
+    if all(len(p) < 2 for p in ps):
+        ps[rng.below(k)] = gen_polyline(rng, rng.choice(['cross', 'mixed', 'walk']), mag, rect=r)['path']
+    return dict(rect=r, paths=ps, mag=mag)
+
+
+def multi_cmd(c, cmd='LINES'):
+    return '%s %s %s' % (cmd, rect_str(c['rect']), vf.fmt_paths(c['paths']))
+
+
+def eval_multi(tools, cases):
+    """per case dict(multi=paths|None, twice=(a,b)|None, singles=[eval_lines result], expect=paths, model=str, fail=[keys])
+    The property is judged on the polylines of the call: the pieces returned for the call must be exactly, in order,
+    the pieces each polyline gives alone (which are judged by the single-path specification); paths of fewer than
+    two points give nothing alone (C09_short_paths) and must change nothing for the others (C09_paths_short_skipped)."""
+    singles = [dict(rect=c['rect'], path=p, style='multi-part', mag=c['mag']) for c in cases for p in c['paths']]
+    sev = eval_lines(tools, singles)
+    a = tools.impl([multi_cmd(c) for c in cases])
+    a2 = tools.impl([multi_cmd(c, 'LINES2') for c in cases])
+    m = tools.model([multi_cmd(c) for c in cases])
+    res, pos = [], 0
+    for i, c in enumerate(cases):
+        se = sev[pos:pos + len(c['paths'])]
+        pos += len(c['paths'])
+        d = dict(impl=a[i], impl2=a2[i], model=m[i], singles=se, fail=[], mismatch=(a[i] != m[i]))
+        out = parse_ok_paths(a[i])
+        t2 = a2[i].split()
+        two = None
+        if t2 and t2[0] == 'OK' and 'T' in t2:
+            k = t2.index('T')
+            two = (vf.parse_paths(t2, 1)[0], vf.parse_paths(t2, k + 1)[0])
+        empty_rect = c['rect'][0] >= c['rect'][2] or c['rect'][1] >= c['rect'][3]
+        if out is None or (two is None and not empty_rect):
+            d['fail'].append('lines.multi.crash' if (a[i] + a2[i]).find('CRASH') >= 0 else 'lines.multi.exception')
+        elif all(s['out'] is not None for s in se):
+            expect = [p for s in se for p in s['out']]
+            d['expect'] = expect
+            if out != expect:
+                d['fail'].append('lines.multi-path-state')
+            elif two is not None and (two[0] != expect or two[1] != expect):
+                d['fail'].append('lines.object-reuse-state')
+        for s in se:
+            for k in s['fail']:
+                if k not in d['fail']:
+                    d['fail'].append(k)
+        res.append(d)
+    return res
+
+
+def explore_multi(ctx, tools, n):
+    rng = ctx.rng.fork(9)
+    cases = [gen_multi(rng, MAGS[i % len(MAGS)]) for i in range(n)]
+    # fixed small cases: an ordinary polyline followed / preceded by a one-point path inside, on the corner, outside; by an empty path
+    R = [0, 0, 100, 100]
+    A = [[-50, 5], [150, 35]]
+    B = [[20, -30], [20, 50], [130, 50]]
+    for extra in ([[50, 50]], [[0, 0]], [[100, 40]], [[500, 500]], [], [[10, 10], [10, 10]]):
+        cases += [dict(rect=R, paths=[A, extra], mag=100), dict(rect=R, paths=[extra, A], mag=100), dict(rect=R, paths=[A, extra, B], mag=100),
+                  dict(rect=R, paths=[A, B, extra, extra], mag=100), dict(rect=R, paths=[A, [[600, 5], [700, 9]], extra, B], mag=100)]
+    ev = eval_multi(tools, cases)
+    ctx.count('evaluations', len(cases))
+    ctx.count('multi_path_calls', len(cases))
+    mism, shrunk, nontriv = [], set(), 0
+    for c, d in zip(cases, ev):
+        ctx.hist('multi_paths_per_call', len(c['paths']))
+        for p in c['paths']:
+            ctx.hist('multi_path_sizes', min(len(p), 3))
+        short_after_output = any(len(p) < 2 and any(s['out'] for s in d['singles'][:j]) for j, p in enumerate(c['paths']))
+        if short_after_output:
+            ctx.count('multi_short_path_after_a_path_with_output')
+        if sum(1 for s in d['singles'] if s['out']) >= 2:
+            nontriv += 1
+        if len(ctx.cov.get('multi_samples', [])) < 2 and short_after_output:
+            ctx.sample(dict(rect=c['rect'], paths=c['paths'], out=d['impl']), key='multi_samples')
+        if d['mismatch']:
+            mism.append((c, d))
+        for key in d['fail']:
+            ctx.hist('failures', key)
+            if key in shrunk:
+                continue
+            shrunk.add(key)
+            if key.startswith('lines.multi') or key == 'lines.object-reuse-state':
+                small = shrink_multi(tools, c, key)
+                e = eval_multi(tools, [small])[0]
+                what = ('RectClipLines on several polylines does not return exactly the pieces of its polylines (%s): rect=%s paths=%s -> `%s`'
+                        ' (same object, Execute twice: `%s`); each polyline alone gives %s'
+                        % (key, small['rect'], small['paths'], e['impl'], e['impl2'], [s['out'] for s in e['singles']]))
+                ctx.violation(key, what, replay=dict(kind='multi', rect=small['rect'], paths=small['paths'], key=key,
+                                                       original=dict(rect=c['rect'], paths=c['paths'])))
+            else:
+                j = [k for k, s in enumerate(d['singles']) if key in s['fail']][0]
+                record(ctx, tools, dict(rect=c['rect'], path=c['paths'][j], style='multi-part', mag=c['mag']), dict(d['singles'][j], fail=[key]))
+    ctx.cov['multi_calls_with_two_or_more_contributing_paths'] = nontriv
+    ctx.cov['multi_model_mismatches'] = len(mism)
+    return mism
+
+
+def shrink_multi(tools, case, key):
+    cur = dict(case)
+    for _ in range(12):
+        cands = []
+        ps = cur['paths']
+        for k in range(len(ps)):
+            if len(ps) > 1:
+                cands.append(dict(cur, paths=ps[:k] + ps[k + 1:]))
+            for j in range(len(ps[k])):
+                if len(ps[k]) > 1:
+                    cands.append(dict(cur, paths=ps[:k] + [ps[k][:j] + ps[k][j + 1:]] + ps[k + 1:]))
+        if not cands:
+            break
+        ev = eval_multi(tools, cands)
+        ok = [c for c, e in zip(cands, ev) if key in e['fail']]
+        if not ok:
+            break
+        cur = min(ok, key=lambda c: (sum(len(p) for p in c['paths']), len(c['paths'])))
+    return cur
+
+
 # ----------------------------------------------------------------------------- run
 def generate(ctx, n_random, maxn):
     rng = ctx.rng
@@ -589,7 +736,9 @@ def run(ctx):
     ]
     ctx.cov['rule'] = ('all polylines with 2..4 vertices on the 5x5 lattice against the central rectangle (exhaustive), exact scalings/translations of those up to |coords| 2^40, '
                        'and seeded random polylines in 9 styles (mixed special coordinates, complete crossings, corner grazing, along sides, ending on the boundary, '
-                       'random walks, duplicate vertices, near misses of corners incl. unimodular 1/|d| misses) x 8 magnitudes up to 2^40; non-trivial = the exact specification counts >= 1 boundary crossing; distinct by input')
+                       'random walks, duplicate vertices, near misses of corners incl. unimodular 1/|d| misses) x 8 magnitudes up to 2^40; '
+                       'calls with 2..4 paths on one rectangle (polylines of those styles mixed with empty, one-point inside/on/outside and two-point paths), '
+                       'through the public wrapper and through one RectClipLines64 object executed twice, required to equal the concatenation of the single-path results; non-trivial = the exact specification counts >= 1 boundary crossing; distinct by input')
     pr = vf.coq_props(ctx, 'C09')
     broken = not pr['ok']
     tools = Tools(ctx)
@@ -599,7 +748,14 @@ def run(ctx):
     lm = leaf_tie(ctx, tools, 3000 if quick else 60000)
     # 2. whole function: model == implementation, specification on the implementation's output
     mism = explore(ctx, tools, n_random, 4, 3000 if quick else 30000)
+    # 3. several polylines per call / object reuse: result(paths) = concatenation of result(each path alone)  [C09_paths_stateless]
+    mm = explore_multi(ctx, tools, 12000 if quick else 200000)
     found = bool(ctx.violations) or bool(ctx.known_hits)
+    if mm:
+        c, d = mm[0]
+        ctx.violation('corr.lines-model-multi', 'RectClipLines on several paths differs from the Coq model rect_clip_lines_paths on %d calls, e.g. rect=%s paths=%s: implementation `%s` model `%s`'
+                      % (len(mm), c['rect'], c['paths'], d['impl'], d['model']),
+                      replay=dict(kind='multi', rect=c['rect'], paths=c['paths'], key='corr.lines-model-multi'), nofail=not found)
     if lm:
         l, x, y = lm[0]
         ctx.cov['leaf_mismatches'] = len(lm)
@@ -635,6 +791,18 @@ def replay(ctx, path):
             ctx.violation(key, 'replayed: rect=%s path=%s -> %s (spec %s)' % (c['rect'], c['path'], d['impl'], ' '.join(d['spec'] or [])), replay=rp)
         if d['mismatch'] and not d['fail']:
             ctx.violation('corr.lines-model', 'replayed: implementation `%s` model `%s`' % (d['impl'], d['model']), replay=rp, nofail=True)
+    elif rp.get('kind') == 'multi':
+        c = dict(rect=rp['rect'], paths=rp['paths'], mag=0)
+        d = eval_multi(tools, [c])[0]
+        ctx.log('impl   %s' % d['impl'])
+        ctx.log('twice  %s' % d['impl2'])
+        ctx.log('model  %s' % d['model'])
+        ctx.log('alone  %s' % [s['out'] for s in d['singles']])
+        ctx.count('evaluations', 1)
+        for key in d['fail']:
+            ctx.violation(key, 'replayed: rect=%s paths=%s -> %s; each polyline alone: %s' % (c['rect'], c['paths'], d['impl'], [s['out'] for s in d['singles']]), replay=rp)
+        if d['mismatch'] and not d['fail']:
+            ctx.violation('corr.lines-model-multi', 'replayed: implementation `%s` model `%s`' % (d['impl'], d['model']), replay=rp, nofail=True)
     elif rp.get('kind') == 'leaf':
         a = tools.impl([rp['line']])[0]
         b = tools.model([rp['line']])[0]
